@@ -300,7 +300,17 @@ func genChainWalk(r *rand.Rand, n int) []Step {
 	}
 	for i := 0; i < n; i++ {
 		u := pick(r, users...)
-		switch r.Intn(31) {
+		switch r.Intn(34) {
+		case 31: // commitment's staking front end: uelys delegated to the validator, Eden / EdenB committed
+			st = append(st, Step{"a": "stake", "u": u, "d": pick(r, "uelys", "uelys", "ueden", "uedenb"), "frac": pick(r, "one", "tiny", "third", "half")})
+		case 32:
+			st = append(st, Step{"a": "unstake", "u": u, "d": pick(r, "uelys", "uelys", "ueden", "uedenb"), "frac": pick(r, "one", "third", "half", "all")})
+		case 33:
+			if r.Intn(3) == 0 {
+				st = append(st, Step{"a": "setPortfolio", "u": u, "of": pick(r, users...)})
+			} else {
+				st = append(st, Step{"a": "withdrawStaking", "u": u, "kind": pick(r, "all", "elys")})
+			}
 		case 30: // the permissionless oracle listing of a denom, sometimes twice in one (then rolled back) transaction
 			ls := Step{"a": "createAssetInfo", "u": u, "d": pick(r, "unewa", "unewb", "ibc/NEW"), "display": pick(r, "NEWA", "NEWB")}
 			if r.Intn(2) == 0 {
